@@ -215,8 +215,21 @@ impl SimData for BasicW {
     }
 
     fn operands(&self) -> Vec<usize> {
+        // get_register(i) walks the whole chain for every i; popping a copy is linear
         let n = self.get_register_len();
-        (0..n).filter_map(|i| self.get_register(i)).collect()
+        if n <= 3 {
+            return (0..n).filter_map(|i| self.get_register(i)).collect();
+        }
+        let mut c = light_clone(self);
+        let mut out = Vec::with_capacity(n);
+        while let Ok(Some(v)) = c.pop_register() {
+            out.push(v);
+            if out.len() > 1_000_000 {
+                break;
+            }
+        }
+        out.reverse();
+        out
     }
 
     fn frames(&self) -> Vec<(usize, usize)> {
